@@ -185,6 +185,53 @@ Proof.
 Qed.
 
 
+(* ---- __iter__: iter(self.fetchone, None) - a NEW callable-iterator over the bound method fetchone with sentinel
+   None (what the model's NewIter / Next ops are: every Next is a fetchone, None exhausts the handle for good);
+   the cursor itself is not touched *)
+Theorem iter_src : forall kIter kf ctx d (c : cur pv),
+  ref_of refs "builtins.iter" = Some kIter ->
+  call_method call_ref prim cursor_iter (("fetchone", PRef kf) :: obj ctx d c) [] =
+  bind (do_call call_ref (PRef kIter) [PRef kf; PNone]) (fun it => Ok (("fetchone", PRef kf) :: obj ctx d c, it)).
+Proof.
+  intros kIter kf ctx d [r p n a it] Hk. cbn in Hk. injection Hk as <-. cbn -[do_call].
+  destruct (do_call call_ref (PRef 5) [PRef kf; PNone]); reflexivity.
+Qed.
+
+(* ---- executemany.  `self.execute(query, p)` is a state-changing call on the receiver, which a PyMini term cannot
+   make; so: (1) the source of executemany IS the loop "query = parse(query); for p in params: self.execute(query, p)"
+   (a syntactic fact about the generated term), and (2) running the translated execute as that loop prescribes
+   ([run_many]) is the model's fold of Execute steps. *)
+Theorem executemany_shape : forall kParse,
+  ref_of refs "beanquery.parser.parse" = Some kParse ->
+  cursor_executemany =
+  {| f_params := ["self"; "query"; "params"];
+     f_body := [SAssign (TName "query") (XCall (XConst (PRef kParse)) [XName "query"] None);
+                SFor "p" (XName "params")
+                  [SExpr (XCall (XAttr (XName "self") "execute") [XName "query"; XName "p"] None)]];
+     f_gen := false |}.
+Proof. intros kParse Hk. cbn in Hk. injection Hk as <-. reflexivity. Qed.
+
+Fixpoint run_many (flds : env) (q : pv) (ps : list pv) : PyMini.res env :=
+  match ps with
+  | [] => Ok flds
+  | p :: t => bind (call_method call_ref prim cursor_execute flds [q; p]) (fun fr => run_many (fst fr) q t)
+  end.
+
+Definition many_step (s : pv * cur pv) (r : pv * list pv) : pv * cur pv :=
+  (fst r, fst (step pv (snd s) (Execute (snd r)))).
+
+Theorem executemany_run : forall K ctx q (ps : list pv) (rs : list (pv * list pv)) d0 (c : cur pv),
+  exec_refs_ok K ->
+  Forall2 (fun p r => pipeline K ctx q p = Ok (PTuple [fst r; PList (snd r)])) ps rs ->
+  run_many (obj ctx d0 c) q ps =
+  Ok (obj ctx (fst (fold_left many_step rs (d0, c))) (snd (fold_left many_step rs (d0, c)))).
+Proof.
+  intros K ctx q ps rs d0 c HK H. revert d0 c.
+  induction H as [|p r ps rs Hp _ IH]; intros d0 c; [reflexivity|].
+  cbn [run_many fold_left]. rewrite (execute_src K ctx d0 c q p (fst r) (snd r) HK Hp).
+  cbn [bind fst]. apply IH.
+Qed.
+
 (* ---- Column: a 7-item sequence.  The class attribute _vars is a tuple of operator.attrgetter objects (opaque
    callables ks); Gen.SrcCursor.column_vars lists, from the live class, the attribute each of them reads together
    with the translated body of that property.  [getters_ok]: calling the j-th getter on the object is calling the
@@ -241,7 +288,7 @@ Proof.
   repeat match goal with H : Forall2 _ _ (_ :: _) |- _ => inversion H; clear H; subst end.
   match goal with H : Forall2 _ _ [] |- _ => inversion H; clear H; subst end.
   unfold getter_is in *. cbn -[do_call] in *|-.
-  remember (do_call call_ref (PRef 7) [t]) as rh eqn:Eh in *.
+  remember (do_call call_ref (PRef 8) [t]) as rh eqn:Eh in *.
   repeat match goal with H : _ = bind (do_call call_ref (PRef ?k) [PSelf]) _ |- _ =>
     let r := fresh "r" in let E := fresh "E" in
     remember (do_call call_ref (PRef k) [PSelf]) as r eqn:E in *
